@@ -73,8 +73,15 @@ func (p *ECPoint) UnmarshalJSON(b []byte) error {
 	if err := json.Unmarshal(b, &aux); err != nil {
 		return err
 	}
-	p.X = aux.X.Int
-	p.Y = aux.Y.Int
+	// "y" is omitted by MarshalJSON for x25519 points; "x" may be missing in
+	// foreign input. Leave the coordinate nil instead of dereferencing.
+	p.X, p.Y = nil, nil
+	if aux.X != nil {
+		p.X = aux.X.Int
+	}
+	if aux.Y != nil {
+		p.Y = aux.Y.Int
+	}
 	return nil
 }
 
